@@ -10,6 +10,10 @@ import (
 	"io"
 )
 
+// maxConsecutiveEmptyReads is how many reads in a row may return
+// neither data nor an error before the stream is given up (io.ErrNoProgress).
+const maxConsecutiveEmptyReads = 100
+
 // H264Reader reads data from stream and constructs h264 nal units.
 type H264Reader struct {
 	stream                      io.Reader
@@ -87,15 +91,31 @@ type NAL struct {
 }
 
 func (reader *H264Reader) read(numToRead int) (data []byte, e error) {
+	emptyReads := 0
 	for len(reader.readBuffer) < numToRead {
 		n, err := reader.stream.Read(reader.tmpReadBuf)
+		// An io.Reader may return the last bytes together with io.EOF,
+		// and may return no bytes without an error: neither ends the stream.
+		reader.readBuffer = append(reader.readBuffer, reader.tmpReadBuf[0:n]...)
+		if errors.Is(err, io.EOF) {
+			if len(reader.readBuffer) < numToRead {
+				return nil, io.EOF
+			}
+
+			break
+		}
 		if err != nil {
 			return nil, err
 		}
 		if n == 0 {
-			break
+			emptyReads++
+			if emptyReads >= maxConsecutiveEmptyReads {
+				return nil, io.ErrNoProgress
+			}
+
+			continue
 		}
-		reader.readBuffer = append(reader.readBuffer, reader.tmpReadBuf[0:n]...)
+		emptyReads = 0
 	}
 
 	numShouldRead := min(numToRead, len(reader.readBuffer))
@@ -163,8 +183,13 @@ func (reader *H264Reader) NextNAL() (*NAL, error) {
 
 	for {
 		buffer, err := reader.read(1)
-		if err != nil {
+		if errors.Is(err, io.EOF) {
 			break
+		}
+		if err != nil {
+			// a failed read is not the end of the stream, the bytes
+			// buffered so far are not a complete NAL
+			return nil, err
 		}
 
 		n := len(buffer)
@@ -196,6 +221,10 @@ func (reader *H264Reader) NextNAL() (*NAL, error) {
 	nal := newNal(reader.nalBuffer)
 	reader.nalBuffer = nil
 	nal.parseHeader()
+	if !reader.includeSEI && nal.UnitType == NalUnitTypeSEI {
+		// the last unit of the stream is skipped like any other SEI
+		return nil, io.EOF
+	}
 
 	return nal, nil
 }
